@@ -36,6 +36,12 @@ variable [FloatOracle]
     so no NOTIFY can be processed between "SID registered" and "backlog replayed" and overtake an early one. -/
 theorem atomicity_pinned : atomicOk = true := by decide
 
+/-- **What the publisher sees is what `handle_notify` answers** (round 4): the library's notify server hands headers
+    and body of every NOTIFY to the event handler unchanged and answers with the handler's status — it takes no
+    decision of its own (read from `aiohttp.py` by the translator), so "each early NOTIFY is answered 200" at the
+    handler is the answer on the wire. -/
+theorem notify_server_forwards_pinned : Gen.C11Race.notifyServerForwards = true := by decide
+
 /-- the driver's diagnostic walk is the judge: a trace is accepted iff no observation is reported -/
 theorem ok_iff_no_first_bad (decls : List (List Var)) (js : JS) (l : List Obs) (i : Nat) :
     okFrom decls js l = (firstBadFrom decls js l i).isNone := by
